@@ -76,6 +76,12 @@ var c18Cat = func() []c18CatEntry {
 		{"node with a path only", node(specs.DeviceNode{Path: "/dev/x"})},
 		{"node fileMode 2^32-1 uid gid 2^32-1", node(specs.DeviceNode{Path: "/dev/x", Type: "c", FileMode: fmode(math.MaxUint32), UID: u32p(math.MaxUint32), GID: u32p(math.MaxUint32)})},
 		{"node fileMode 0 uid gid 0", node(specs.DeviceNode{Path: "/dev/x", Type: "p", FileMode: fmode(0), UID: u32p(0), GID: u32p(0)})},
+		{"node with a minor and no major", node(specs.DeviceNode{Path: "/dev/x", Type: "c", Minor: 7})},
+		{"node with the largest minor and no major", node(specs.DeviceNode{Path: "/dev/x", Type: "b", Minor: math.MaxInt64})},
+		{"node with a major and no minor", node(specs.DeviceNode{Path: "/dev/x", Type: "c", Major: 7})},
+		{"node with uid and no gid", node(specs.DeviceNode{Path: "/dev/x", Type: "c", Major: 1, UID: u32p(7)})},
+		{"node with gid and no uid", node(specs.DeviceNode{Path: "/dev/x", Type: "c", Major: 1, GID: u32p(7)})},
+		{"node with permissions only", node(specs.DeviceNode{Path: "/dev/x", Permissions: "rwm"})},
 		{"node major minor extremes", node(specs.DeviceNode{Path: "/dev/x", Type: "b", Major: math.MaxInt64, Minor: math.MinInt64})},
 		{"hook without timeout", hook(specs.Hook{HookName: "createRuntime", Path: "/h"})},
 		{"hook timeout 0", hook(specs.Hook{HookName: "prestart", Path: "/h", Timeout: intp(0)})},
